@@ -2,7 +2,7 @@
 //! small input into write calls, every ≤2(3)-cut history of multi-block inputs, zero-length calls,
 //! trailing partial PCM frames, all writer front-ends and byte orders; oracle: byte identity with the
 //! one-call sample-writer output of the whole-PCM-frame prefix.
-use crate::codec::{bytes_per_sample, encode, encode_calls, err_class, pcm_bytes, Opt, Sig, WriterKind};
+use crate::codec::{bytes_per_sample, encode, encode_hist, err_class, pcm_bytes, Opt, Sig, WriterKind};
 use crate::core::{Acc, Ctx};
 use crate::corpus::ident_pcm;
 use flac_codec::byteorder::{BigEndian, LittleEndian};
@@ -10,7 +10,7 @@ use flac_codec::encode::{FlacByteWriter, FlacSampleWriter};
 use serde_json::{json, Value};
 use std::io::{Cursor, Write};
 
-pub const RULE: &str = "write histories: (A) ALL compositions of an 18-unit (thorough 21) mono 8-bit input into write calls for the byte, sample and channel writers; (B,C) all histories with ≤2 (thorough ≤3 on B) cut points, plus a zero-length call at every position, on stereo 16-bit (17 PCM frames), 3-channel 24-bit (33 PCM frames), mono 12-bit (40) inputs and ≤3 cuts on a mono 16-bit input of 70 PCM frames (4 blocks + remainder; byte writers ≤2 cuts) in the writer's native unit (bytes: cuts fall mid-sample and mid-PCM-frame); (D) trailing partial PCM frames of every possible length after 0, 5, 16 and 17 whole frames; × {byte LE, byte BE, sample, channel} × declared/undeclared × two option sets; oracle = byte identity with the single-call sample-writer file; reference-file hashes are compared across the 16 worker processes (run-to-run determinism)";
+pub const RULE: &str = "write histories: (A) ALL compositions of an 18-unit (thorough 21) mono 8-bit input into write calls for the byte, sample and channel writers; (B,C) all histories with ≤2 (thorough ≤3 on B) cut points, plus a zero-length call at every position, on stereo 16-bit (17 PCM frames), 3-channel 24-bit (33 PCM frames), mono 12-bit (40) inputs, inputs that are exact multiples of the block size (stereo 16-bit 32 PCM frames, mono 8-bit 16, mono 32-bit 48) and ≤3 cuts on a mono 16-bit input of 70 PCM frames (4 blocks + remainder; byte writers ≤2 cuts) in the writer's native unit (bytes: cuts fall mid-sample and mid-PCM-frame); (D) trailing partial PCM frames of every possible length after 0, 5, 16 and 17 whole frames; × {byte LE, byte BE, sample, channel} × declared/undeclared × two option sets × history mode {plain; io::Write::flush after every write call (byte writers); writer dropped instead of finalized (≤1-cut histories)}; oracle = byte identity with the single-call sample-writer file; reference-file hashes are compared across the 16 worker processes (run-to-run determinism)";
 pub const ASSUMPTIONS: &[&str] = &["PCM content is the fixed position-identifying signal; histories, not sample values, are the explored dimension here (values: C01)"];
 pub fn bounds(quick: bool) -> Value {
     json!({"compositions_n": if quick {18} else {21}, "max_cuts_B": if quick {2} else {3}, "max_cuts_C": 2, "partial_lengths": "all 1..w*ch-1 bytes / 1..ch-1 samples"})
@@ -36,26 +36,35 @@ struct Job<'a> {
 }
 
 fn check(acc: &mut Acc, job: &Job, reference: &Result<Vec<u8>, String>, w: WriterKind, cuts: &[usize]) {
-    acc.executions += 1;
-    acc.transitions += cuts.len() as u64 + 2;
-    let got = encode_calls(w, &job.opt, &job.sig, &job.pcm, Some(cuts));
-    let same = match (&got, reference) {
-        (Ok(a), Ok(b)) => a == b,
-        (Err(a), Err(b)) => err_class(a) == err_class(b),
-        _ => false,
-    };
-    acc.outcome(format!("{}:{w:?}:cuts{}:{}", job.name, cuts.len(), if same { "same" } else { "DIFF" }));
-    if !same {
-        let clause = match &got {
-            Err(e) if e.starts_with("panic:") => err_class(e),
-            Err(e) => format!("fails-{}", err_class(e)),
-            Ok(_) => "different-bytes".into(),
+    // history modes: plain; flush() after every write call (byte writers only — the others have no flush);
+    // writer dropped instead of finalized (short histories)
+    let byte = matches!(w, WriterKind::ByteLE | WriterKind::ByteBE);
+    for (flush, drop_it) in [(false, false), (true, false), (false, true)] {
+        if (flush && !byte) || (drop_it && cuts.len() > 1) {
+            continue;
+        }
+        acc.executions += 1;
+        acc.transitions += cuts.len() as u64 * if flush { 2 } else { 1 } + 2;
+        let got = encode_hist(w, &job.opt, &job.sig, &job.pcm, Some(cuts), flush, drop_it);
+        let same = match (&got, reference) {
+            (Ok(a), Ok(b)) => a == b,
+            (Err(a), Err(b)) => err_class(a) == err_class(b),
+            _ => false,
         };
-        acc.violation(
-            format!("C08|{w:?}|{clause}"),
-            format!("{} via {w:?} split at {cuts:?}: {} vs single-call reference {}", job.name, brief(&got), brief(reference)),
-            json!({"kind":"write-history","writer":format!("{w:?}"),"opt":job.opt.to_json(),"rate":job.sig.rate,"bps":job.sig.bps,"ch":job.sig.ch,"pcm":job.pcm,"cuts":cuts}),
-        );
+        let mode = if flush { "+flush" } else if drop_it { "+drop" } else { "" };
+        acc.outcome(format!("{}:{w:?}{mode}:cuts{}:{}", job.name, cuts.len(), if same { "same" } else { "DIFF" }));
+        if !same {
+            let clause = match &got {
+                Err(e) if e.starts_with("panic:") => err_class(e),
+                Err(e) => format!("fails-{}", err_class(e)),
+                Ok(_) => "different-bytes".into(),
+            };
+            acc.violation(
+                format!("C08|{w:?}{mode}|{clause}"),
+                format!("{} via {w:?}{mode} split at {cuts:?}: {} vs single-call reference {}", job.name, brief(&got), brief(reference)),
+                json!({"kind":"write-history","writer":format!("{w:?}"),"opt":job.opt.to_json(),"rate":job.sig.rate,"bps":job.sig.bps,"ch":job.sig.ch,"pcm":job.pcm,"cuts":cuts,"flush":flush,"drop":drop_it}),
+            );
+        }
     }
 }
 fn brief(r: &Result<Vec<u8>, String>) -> String {
@@ -140,7 +149,7 @@ pub fn run(ctx: &Ctx, acc: &mut Acc) {
     // ---------- (B),(C) ≤k cuts + zero-length calls
     // F: four blocks + a remainder with up to 3 cuts — histories that leave a remainder, refill without emptying and
     // wrap the carry-over ring buffer (e.g. writes of B+5, B, B, rest)
-    let sets: Vec<(&str, Sig, usize, usize)> = vec![("B-stereo16", Sig { rate: 44100, bps: 16, ch: 2 }, 17, if q { 2 } else { 3 }), ("C-3ch24", Sig { rate: 48000, bps: 24, ch: 3 }, 33, 2), ("E-mono12", Sig { rate: 8000, bps: 12, ch: 1 }, 40, 2), ("F-mono16-4blocks", Sig { rate: 44100, bps: 16, ch: 1 }, 70, 3)];
+    let sets: Vec<(&str, Sig, usize, usize)> = vec![("B-stereo16", Sig { rate: 44100, bps: 16, ch: 2 }, 17, if q { 2 } else { 3 }), ("C-3ch24", Sig { rate: 48000, bps: 24, ch: 3 }, 33, 2), ("E-mono12", Sig { rate: 8000, bps: 12, ch: 1 }, 40, 2), ("F-mono16-4blocks", Sig { rate: 44100, bps: 16, ch: 1 }, 70, 3), ("G-stereo16-exactly-2-blocks", Sig { rate: 44100, bps: 16, ch: 2 }, 32, 2), ("H-mono8-exactly-1-block", Sig { rate: 22050, bps: 8, ch: 1 }, 16, 2), ("I-mono32-3-blocks", Sig { rate: 96000, bps: 32, ch: 1 }, 48, 2)];
     for (name, sig, frames, maxcuts) in sets {
         for opt in [Opt { declared: true, ..Opt::base16() }, Opt { declared: false, ..Opt::base16() }, Opt { declared: true, ..fast_opt() }] {
             let job = Job { name, sig: sig.clone(), pcm: ident_pcm(sig.ch, sig.bps, frames), opt };
@@ -253,7 +262,7 @@ pub fn replay(v: &Value) -> Option<(bool, String)> {
             let pcm = crate::core::ivec(&v["pcm"]);
             let cuts: Vec<usize> = v["cuts"].as_array()?.iter().map(|x| x.as_u64().unwrap_or(0) as usize).collect();
             let reference = encode(WriterKind::Sample, &opt, &sig, &pcm);
-            let got = encode_calls(w, &opt, &sig, &pcm, Some(&cuts));
+            let got = encode_hist(w, &opt, &sig, &pcm, Some(&cuts), v["flush"].as_bool().unwrap_or(false), v["drop"].as_bool().unwrap_or(false));
             let same = match (&got, &reference) {
                 (Ok(a), Ok(b)) => a == b,
                 (Err(a), Err(b)) => err_class(a) == err_class(b),
